@@ -46,6 +46,11 @@ Step(e) ==
          /\ learned' = [n \in Nodes |-> {x \in learned[n] : x.at + ST >= now + e.secs}]
          /\ UNCHANGED <<net, nextId, frames, delivered, down, size>>
     [] e.op = "leave" -> Leave(e.n) /\ UNCHANGED size
+    [] e.op = "vlan" ->      \* C13 tag normalisation: 12-bit VLAN id, priority tags (id 0) counted as untagged
+         /\ e.res = "ok"
+         /\ e.alen = (IF VlanKey(e.tci) = 0 THEN 6 ELSE 8)
+         /\ VlanKey(e.tci) = e.key[1] * 256 + e.key[2]
+         /\ UNCHANGED <<vars, size>>
     [] e.op = "quiet" -> e.panics = 0 /\ net = {} /\ (ExactlyOnce = TRUE) /\ UNCHANGED <<vars, size>>    \* (= TRUE: evaluated as a value, not split as an action)
     [] OTHER -> FALSE
 
